@@ -102,8 +102,28 @@ func AllNonCanonicalPointStrings() [][]byte {
 
 // GenPointBytes draws a 32-byte string from classes that matter to decoders.
 func GenPointBytes(t *rapid.T, label string) ([]byte, string) {
-	k := rapid.IntRange(0, 11).Draw(t, label+"_bk")
+	k := rapid.IntRange(0, 12).Draw(t, label+"_bk")
 	switch k {
+	case 12: // agrees with p above one byte position, differs there (byte-wise canonicity tests), either sign bit;
+		// half of the time walked to the nearest y that is on the curve so that the decoders get past the square root
+		b := BytewiseProbe(t, label, ref.P)
+		if rapid.Bool().Draw(t, label+"_oncurve") {
+			y := ref.FromLE(b)
+			y.SetBit(y, 255, 0)
+			for n := 0; n < 64; n++ {
+				yy := ref.ToLE(y, 32)
+				if ref.Decode(yy).OK {
+					b = yy
+					break
+				}
+				y.Add(y, big.NewInt(256)) // keeps byte 0, walks byte 1 upwards (and carries)
+				y.SetBit(y, 255, 0)
+			}
+		}
+		if rapid.Bool().Draw(t, label+"_s") {
+			b[31] |= 0x80
+		}
+		return b, "bytewise-p"
 	case 0, 1:
 		ps := GenPointSpec(t, label, true)
 		return ps.Enc(), "enc:" + ps.Cls
